@@ -96,11 +96,14 @@ pub struct RunCfg {
     pub mask: u8,
     pub workers: usize,
     pub max_rows: usize,
+    /// run without arming the engine's cancel flag (as a plain `IQLEngine` API user does); only for
+    /// programs already known to terminate
+    pub no_cancel: bool,
 }
 
 impl Default for RunCfg {
     fn default() -> Self {
-        RunCfg { mask: OPT_DEFAULT, workers: 1, max_rows: 0 }
+        RunCfg { mask: OPT_DEFAULT, workers: 1, max_rows: 0, no_cancel: false }
     }
 }
 
@@ -110,6 +113,9 @@ pub fn run_iql_text(text: &str, case: &Case, cfg: &RunCfg) -> Result<Vec<Tuple>,
     engine.set_num_workers(cfg.workers);
     engine.set_max_result_rows(cfg.max_rows);
     load_edb(&mut engine, case);
+    if cfg.no_cancel {
+        return engine.execute_tuples(text).map_err(EngErr::Rejected);
+    }
     let (r, fired) = with_watchdog(20, || engine.execute_tuples(text));
     if fired {
         return Err(EngErr::Watchdog);
